@@ -149,6 +149,40 @@ SEEDS = {
                                          "first calls overlapping in two threads on groups of at least 4 fields"),
  "C18-remove-shrink-fail-undo-keeps-count": (["C18", "C08"], "when the BITMAP->ARRAY shrink allocation fails varintBitmapRemove re-sets the bit and returns false but leaves the decremented cardinality",
                                              "Remove taking the cardinality from 4096 to 4095 with that malloc failing"),
+ "C01-splitfull16-get-int-shift-sign-extends": (["C01", "C04"], "varintSplitFull16Get_ reads the 4-byte payload inline without uint64_t casts: (ptr)[4] << 24 is an int and sign-extends",
+                                                "a 5-byte split-full-16 value whose top payload byte is >= 0x80"),
+ "C03-dict-encode-index-width-from-size": (["C03", "C06", "C16"], "a new helper sizes the dictionary index width for dictSize instead of dictSize - 1 in the encoder and both decoders; varintDictBuild and the size predictors keep size - 1: the encoder writes count more bytes than advertised",
+                                           "exactly 256, 65536 or 16777216 distinct values"),
+ "C04-external-bigendian-48b-half-swap": (["C04", "C01"], "the 6-byte case of the big-endian external copy helper byte-swaps the two halves without exchanging them: the wire bytes are b1 b0 b5 b4 b3 b2",
+                                          "a value in [2^40, 2^48) in the external big-endian family, read by anything but the library itself"),
+ "C05-tagged-7byte-header-word-clobbers-low": (["C05", "C04", "C01"], "the 7-byte tagged class stores the low word first and then the tag plus high bytes with one 32-bit store whose zero pad byte overwrites the top byte of the low word",
+                                               "values in [2^40, 2^48) differing in bits 24..31"),
+ "C06-checksorted-skips-last-pair": (["C06"], "varintAdaptiveCheckSorted takes the direction from the endpoints and never compares the final pair: an array whose only descent is the last step is reported sorted and can be routed to BITMAP",
+                                     "ascending except the final step, last >= first, bitmap gate otherwise satisfied"),
+ "C07-decode-full-drops-implicit-bit": (["C07"], "varintFloatDecodes FULL branch no longer ORs the implicit bit back in; with varintFloatComposes zero shortcut exactly +-1.0 decodes as +-0.0",
+                                        "FULL precision and a value that is exactly +-1.0"),
+ "C08-bitmap-to-array-skips-65535": (["C08", "C15"], "bitmapToArray_ loops with a uint16_t index bounded by UINT16_MAX: bit 65535 is never inspected, the member is dropped while the cardinality stays",
+                                     "a set containing 65535 shrinking from the bitmap to the array container"),
+ "C09-deletemember-reads-past-end": (["C09"], "DeleteMember does its own binary search and Get guarded only by len > 0: for a value above every element it reads element len, a stale slot, and may delete a non-member",
+                                     "member greater than all elements and the slot past the end decoding to it"),
+ "C10-pairencode-rows-8byte-store": (["C10"], "varintDimensionPairEncode writes the row count as a full 8-byte store and the column count over its tail: headers shorter than 8 bytes zero the first cells of the matrix",
+                                     "re-stamping a short header on a populated matrix"),
+ "C11-value-bits-macro-from-valtype": (["C11"], "BITS_PER_VALUE_TYPE_ becomes sizeof(vbitsVal)*8 while valueMask is still built from ~0ULL: with a value type narrower than 64 bits the mask is all ones",
+                                       "VBITSVAL uint32_t and non-zero earlier bits in the slot"),
+ "C12-external-add-clears-too-many": (["C12", "C13"], "after a shrinking sum varintExternalAdd_ clears memset(p + newEncoding, 0, origEncoding) instead of origEncoding - newEncoding: bytes beyond the slot are zeroed",
+                                      "external family, sum crossing a width boundary downward"),
+ "C13-group-decode-capacity-zero-wrap": (["C13"], "varintGroupDecodes rejection became (size_t)count - 1 > min(maxFields, 64) - 1: with maxFields == 0 the bound wraps and nothing is rejected",
+                                         "capacity exactly 0"),
+ "C14-dict-decode-alloc-before-check": (["C14", "C18"], "varintDictDecode allocates count * 8 bytes right after reading the count header, before checking the count against the bytes present",
+                                        "a hostile count header (allocator-visible only)"),
+ "C15-bp128-delta64-width-from-scratch": (["C15"], "varintBP128DeltaEncode64 computes the partial blocks bit width over all 128 slots of the uninitialised scratch array instead of the blockSize slots written",
+                                          "(count-1) % 128 != 0 and stack residue larger than the real maximum delta"),
+ "C16-bitmap-range-flag-inclusive-again": (["C16", "C06"], "fitsInBitmapRange uses maxValue <= VARINT_BITMAP_MAX_VALUE (65536, exclusive): BITMAP is selected, its arm skips 65536, originalCount is reported one too many (same mechanism as the batch-3 C06 seed)",
+                                           "ascending duplicate-free array with maximum exactly 65536"),
+ "C17-adaptive-analysis-published-static": (["C17", "C15"], "varintAdaptiveEncode publishes its analysis through a file-scope pointer that the FOR arm of EncodeWith consults",
+                                            "two threads, same element count, different min or range"),
+ "C18-pfor-exception-oom-continues": (["C18"], "when the exception list allocation fails varintPFOREncode sets exceptionCount = 0 and continues: outliers are written truncated and success is reported",
+                                      "second allocation of the call fails and an outlier needs more bytes than the width"),
 }
 
 
